@@ -23,6 +23,7 @@ RULE = ("random handshake-consistent joint degree sequences (N 1..40 quick / 1..
         "configuration is built and used in between; non-trivial = >=2 motif instances and (a zero-degree vertex or a vertex with degree >=2 in a topology); "
         "distinct = SHA-1 of (configuration, jds)")
 RULE += ("; rounds k-l added: " + 'two topologies sharing one edge name (8% of fast/network configurations), names that are members of a str-based Enum (8%), custom bare-edge callbacks that hand back their own argument list (40% of custom configurations), the sequence as a numpy table of a narrow integer type (int8/uint8/int16; 15% of the cases are built larger so that column sums pass the element type)')
+RULE += '; round n: fast / network callbacks that return [their argument list] as the one edge of a 2-vertex motif (20% of the configurations)'
 ASSUMPTIONS = ["only handshake-consistent inputs are generated (column sums divisible; equal instance counts across a motif's orbits)",
                "the oracle is order- and orientation-insensitive and never looks at which stubs met, only at conservation"]
 HEADLINE = ["generations", "motif_instances", "columns_conserved", "edgelist_outputs", "network_outputs", "fast", "network", "custom",
